@@ -346,7 +346,7 @@ def parseparam_quote_parity(p: Program, rep=None):
     Content-Disposition such as  name="doc\\"s"; filename="big.bin"  otherwise loses (or gains) its filename parameter, which
     flips the File/Field classification."""
     m = p.module("baize.utils")
-    fn = m.functions.get("_parseparam")
+    fn = p.function(m.name, "_parseparam")
     if fn is None:
         raise AnalysisError("baize.utils._parseparam vanished")
     if rep is not None:
